@@ -43,8 +43,13 @@ def stack_shape(H, c):
                   Val.fst(xs_item(H, s, 1)) == con("xs:acm:CoalesceCM"),
                   xs_item(H, s, 2) == entry("acm:TaskGroup", H.fld("_task_group", c)),
                   xs_item(H, s, 3) == td)
+    pv = prev_ctx(H, c)
+    prev_ok = z3.Or(pv == VNone, z3.And(Val.is_ref(pv), is_ctx(H, Val.a(pv)),
+                                        z3.Implies(subcls(H.fld("__class__", Val.a(pv)), con("ComponentContext")), z3.Select(H.g("g:cc_init"), Val.a(pv)))))
     return z3.And(Val.is_ref(H.fld("_exit_stack", c)), 0 <= s, s < H.alloc,
                   z3.Select(H.g("g:xs_owner"), s) == vref(c),
+                  # the context recorded as previous in the reset token is None or an initialised context (I-cur held when c was entered)
+                  prev_ok,
                   # an entered non-root context is registered in its parent's child set
                   z3.Implies(par != VNone, H.s_has(children_of(H, Val.a(par)), vref(c))),
                   z3.If(par != VNone, nonroot, root))
@@ -99,6 +104,8 @@ class Enter(FnSpec):
         c = F.addr("self")
         par = F.old.fld("_parent", c)
         return [("initialised-context", is_ctx(F.old, c)),
+                ("a-component-context-has-completed-its-own-init", z3.Implies(subcls(F.old.fld("__class__", c), con("ComponentContext")),
+                                                                              z3.Select(F.old.g("g:cc_init"), c))),
                 ("parent-is-an-initialised-context", z3.Or(par == VNone, z3.And(Val.is_ref(par), is_ctx(F.old, Val.a(par)))))]
 
     def ghost_exit(self, eng, st, kind):
@@ -232,7 +239,7 @@ def register(reg):
     reg.ghost_comps["g:xs_owner"] = AV
     reg.invariants.append(("I-stk:exit-stack-as-pushed-by-aenter", inv_stk,
                            ("g:ctx_init", "fld:_state", "fld:_exit_stack", "fld:_parent", "fld:_task_group", "fld:_child_contexts",
-                            "g:xs_len", "g:xs_item", "g:xs_owner", "alloc"), {"lazy": True}))
+                            "g:xs_len", "g:xs_item", "g:xs_owner", "alloc", "g:cc_init", "fld:__class__", "s_has"), {"lazy": True}))
     reg.guarantees.append(("G-stk:exit-stacks-of-open-contexts-are-private", g_stk,
                            ("g:ctx_init", "fld:_state", "fld:_exit_stack", "fld:_task_group", "g:xs_len", "g:xs_item")))
     reg.assumptions_text["A-TD2"] = ("no task registers a teardown callback on a root context in the window between the end of its "
